@@ -51,7 +51,7 @@ class C05(InterpProp):
             p = case.payload
             p['charts'].append(ChartEnc(sink).json)
             p['ops'] = [p['ops'][0], ['create', 1, False, [], 0], ['bind', 0, 1]] + p['ops'][1:] + \
-                [['execute', 1, 10 ** 6, 0]]
+                [['execute', 1, 10 ** 6, 250]]     # (bounded: below the fuel of the model's `execute`)
             p['sink'] = True
             case.aux['charts'].append(sink)
         return case
@@ -80,8 +80,8 @@ class C05(InterpProp):
                 if r['outcome'] == 'step':
                     sent += [e['event'] for m in r['step']['steps'] for e in m['sent'] if e['internal']]
         last = obs['obs'][-1]['r']
-        if not clean or not isinstance(last, dict) or last.get('err'):
-            return
+        if not clean or not isinstance(last, dict) or last.get('err') or len(last.get('steps', [])) >= 250:
+            return      # (not drained)
         got = [m['event'] for st in last['steps'] for m in st['steps'] if m['event'] is not None]
         key = lambda e: (e['ev'], str(e['data']))
         if sorted(map(key, got)) != sorted(map(key, sent)):
